@@ -182,3 +182,20 @@ CHECKS["C12"] = {
     "level_text": "Complete enumeration of the stated constraint tuples and pairs on the real domains with an exact brute-force integer oracle.",
     "level_note": "Three variables, |k|<=2, up to 3 constraints; languages with more variables or larger constants are not covered.",
 }
+
+CHECKS["C06"] = {
+    "level": "model_checking",
+    "technique": "exhaustive enumeration of all small CFGs x exact block relations over a 16-state concrete space on the real interleaved fixpoint iterator, compared block by block with a naive Kleene least fixpoint",
+    "design_ref": "DESIGN.md §2 C06",
+    "jobs": [{"bin": "c06_fixpoint", "deadline": {"quick": 400, "thorough": 3000}}],
+    "rule": ("value type = subsets of {0..3}^2 (widening = join, narrowing = meet). Every real crab CFG with n<=3 blocks (all 2^(n*n) edge "
+             "sets: entry with predecessors / as loop head, self loops, unreachable blocks, irreducible shapes; n=4 in thorough with a 4-relation "
+             "menu) x every assignment of exact block relations from {id, x+1 mod 4, x<=1, x>=2, havoc x, x:=0, swap} x 5 initial sets x every "
+             "admissible start block (cfg entry, or a block outside every WTO component) x assumption maps (none / one block / two blocks, 3 sets) "
+             "x widening_delay {0,1,3} x descending_iterations {0,1,2}; get_pre and get_post of EVERY block must equal the naive least solution "
+             "of pre(b) = (init_b U posts of preds) & assumption_b, post = rel(pre). states = (run, block) pairs compared; "
+             "distinct_nontrivial = runs with a block whose least solution is neither empty nor full."),
+    "assumptions": ["the reference Kleene iteration is written independently in the harness"],
+    "level_text": "Complete enumeration of the stated CFG/relation/parameter space on the real fixpoint iterator with an exact oracle.",
+    "level_note": "16-state concrete space and <=3 (4) blocks; the real-domain clause (no extrapolation within widening_delay) is checked by the C01 program engine.",
+}
